@@ -120,6 +120,29 @@ def run(F, ck, tier):
     ck.rule('R03.9', 'every Merkle path check ends in a comparison of the recomputed digest with the cap entry, on every path length (R12.3 of C12): without it the leaf data of that oracle is not bound to the commitment')
     from . import c12, report
     c12.run(F, report.FilterProxy(ck, {'R12.3': 'R03.9'}), tier)
+    # ---- R03.10 digests are absorbed whole (shared with C04)
+    ck.rule('R03.10', 'the digest encoders and absorbing primitives through which caps and hashes enter the transcript drop nothing (encoder / primitive clauses of R04.6 of C04): bytes of a digest that are not absorbed are bound by no challenge')
+
+    class _Enc:
+        def __init__(self, ck):
+            self.ck = ck
+            self.decided, self.undecided = [], []
+        notes = property(lambda self: self.ck.notes)
+
+        def rule(self, *a):
+            pass
+
+        def observe(self, *a):
+            pass
+
+        def floor(self, *a):
+            pass
+
+        def ob(self, rule, key, ok, detail='', loc=None):
+            if rule == 'R04.6' and key.startswith(('encoder:', 'primitive:')):
+                return self.ck.ob('R03.10', key, ok, detail, loc)
+    from . import c04 as _c04
+    _c04.whole_absorptions(F, _Enc(ck), {})
     # ---- R03.8 circuit digest construction
     ck.rule('R03.8', 'the circuit digest that seeds every transcript is computed from the preprocessed cap, the (padded-hashed, because variable-length) domain separator and the degree')
     tb = [f for f in F.find('CircuitBuilder::try_build_with_options', crate='plonky2')]
